@@ -182,7 +182,7 @@ func runR151(c *core.Ctx) {
 		var queryParam types.Object
 		for _, fl := range fd.Type.Params.List {
 			for _, n := range fl.Names {
-				if nt, ok := inf.Defs[n].Type().(*types.Named); ok && nt.Obj().Name() == "QueryParamsEncoder" {
+				if nt, ok := inf.Defs[n].Type().(*types.Named); ok && core.NameOf(nt.Obj()) == "QueryParamsEncoder" {
 					queryParam = inf.Defs[n]
 				}
 			}
@@ -251,7 +251,7 @@ func runR152(c *core.Ctx) {
 		}
 		switch f.Pkg().Path() {
 		case "net/url":
-			switch f.Name() {
+			switch core.NameOf(f) {
 			case "PathEscape", "QueryEscape", "PathUnescape", "QueryUnescape", "JoinPath":
 				return "re-encodes or decodes what the encoders produced"
 			case "ResolveReference":
@@ -262,9 +262,9 @@ func runR152(c *core.Ctx) {
 				}
 			}
 		case "path", "path/filepath":
-			switch f.Name() {
-			case "Clean", "Join", "Abs", "Rel":
-				return "normalises slashes and dot segments"
+			switch core.NameOf(f) {
+			case "Clean", "Join", "Abs", "Rel", "Dir", "Base":
+				return "normalises slashes and dot segments (Dir and Base clean their result / strip trailing slashes)"
 			}
 		}
 		return ""
@@ -430,7 +430,9 @@ func newLinProver(inf *types.Info, fd *ast.FuncDecl) *linProver {
 	return lp
 }
 
-func (lp *linProver) atomVar(o types.Object) string { return fmt.Sprintf("v:%s@%d", o.Name(), o.Pos()) }
+func (lp *linProver) atomVar(o types.Object) string {
+	return fmt.Sprintf("v:%s@%d", core.NameOf(o), o.Pos())
+}
 
 func (lp *linProver) singleDef(o types.Object) ast.Expr {
 	if ds := lp.defs[o]; len(ds) == 1 {
